@@ -524,6 +524,15 @@ let rec ms_keys (m : ms) : int list =
   | MAndOr (a, b, c) -> ms_keys a @ ms_keys b @ ms_keys c
   | MThresh (_, xs) -> List.concat_map ms_keys xs
   | _ -> []
+(* hashes of raw key hash leaves (decoder-only fragments) *)
+let rec ms_rawhashes (m : ms) : bytes list =
+  match m with
+  | MRawPkH h -> [h]
+  | MAlt x | MSwap x | MCheck x | MDupIf x | MVerify x | MNonZero x | MZeroNotEqual x -> ms_rawhashes x
+  | MAndV (x, y) | MAndB (x, y) | MOrB (x, y) | MOrD (x, y) | MOrC (x, y) | MOrI (x, y) -> ms_rawhashes x @ ms_rawhashes y
+  | MAndOr (a, b, c) -> ms_rawhashes a @ ms_rawhashes b @ ms_rawhashes c
+  | MThresh (_, xs) -> List.concat_map ms_rawhashes xs
+  | _ -> []
 let rec ms_hashes (m : ms) : bytes list =
   match m with
   | MSha256 h | MHash256 h | MRipemd160 h | MHash160 h -> [h]
@@ -582,7 +591,11 @@ let handle_frag (line : string) =
        let has c = String.contains props c in
        if base = 'B' || base = 'V' then begin
          incr c06_frags;
-         let ks = List.sort_uniq compare (ms_keys m) in
+         (* keys named by the fragment, plus the keys behind its raw key hashes (the stack alphabet
+            must contain them, otherwise a raw key hash is never satisfied and its labels go untested) *)
+         let raws = ms_rawhashes m in
+         let raw_ks = List.filter_map (fun (i, k) -> if List.mem (if tap then k.h_x else k.h_full) raws then Some i else None) !keys in
+         let ks = List.sort_uniq compare (ms_keys m @ raw_ks) in
          let kbytes i = let r = key i in if tap then r.xonly else r.full in
          let sigpairs = List.map (fun i -> (kbytes i, fake_sig i)) ks in
          let valid_sigs = List.map snd sigpairs in
